@@ -334,6 +334,10 @@ where
         T: From<VarInt> + PartialOrd<T> + Copy,
         VarInt: From<T>,
     {
+        // A connection which has failed stays failed: report its error, as every other
+        // call on the driver does, instead of `Ok(())` or a GOAWAY on a closed connection.
+        self.check_connection_error()?;
+
         if let Some(sent_id) = sent_closing {
             if *sent_id <= max_id {
                 return Ok(());
